@@ -15,6 +15,7 @@ import os
 import shutil
 
 from lib import coqrun, dsched
+from lib.dsched import Deadlock
 from lib.core import Ctx, Failure, Mismatch, Obligation, Result
 from lib.tocoq import Nat, Raw, term, val
 
@@ -48,8 +49,9 @@ ASSUMPTIONS = [
     "for a store used only by torchsnapshot)",
     "store operations are atomic and totally ordered; wait() blocks without timeout (timeouts are not modelled)",
     "the metadata write is atomic: a failed write leaves no committed metadata (storage-plugin behaviour, cf. C02/C03)",
-    "sync_complete raising is the only way a rank's I/O fails in the background phase; exceptions that are not "
-    "subclasses of Exception (KeyboardInterrupt...) are not modelled",
+    "in the protocol model sync_complete raising an Exception is the only way a rank's I/O fails in the background phase; "
+    "what the REAL PendingIOWork raises (and whether it raises at all) when a write fails while sibling writes are in flight is "
+    "exercised end to end (check_public_faults), not modelled",
 ]
 IMPORTS = "From TS Require Import model.Barrier.\n"
 IN_TYPE = "list BarrierSpecT * list choice"
@@ -587,6 +589,53 @@ def check_public(ctx: Ctx, res: Result):
                                             {"public": True, "W": W, "policy": policy, "same_path": same_path, "seed": seed}))
 
 
+def check_public_faults(ctx: Ctx, res: Result):
+    """End to end with the REAL pending I/O work (not the look-alike): async_take + wait on 2-3 simulated ranks with several
+    write requests per rank, the n-th storage write of rank r failing for sampled (r, n) - in particular while sibling
+    writes of the same rank are still in flight.  Property: wait() raises on EVERY rank, nobody hangs, no metadata."""
+    from props import commit_common as cc
+    rng = ctx.rng
+    for i in range(ctx.n(4, 20)):
+        wl = cc.make_workload(rng)
+        if wl["W"] < 2:
+            continue
+        root = ctx.scratch("c13f")
+        ref = cc.run_take(wl, os.path.join(root, "ref"), "async", "fifo")
+        shutil.rmtree(root, ignore_errors=True)
+        if ref.deadlock or any(e is not None for e in ref.errors):
+            res.failures.append(Failure("C13:public:fault-free-run-failed", f"fault-free async take failed: {ref.errors} {ref.deadlock}", {"workload": wl}))
+            continue
+        counts = list(ref.nwrites)
+        targets = [(r, n) for r in range(wl["W"]) for n in range(counts[r])]
+        if not ctx.thorough and len(targets) > 5:
+            targets = rng.sample(targets, 5)
+        for (fr, fn_) in targets:
+            for sched in (["fifo", "random"] if not ctx.thorough else ["fifo", "random", ("starve", fr), ("starve_others", fr)]):
+                root = ctx.scratch("c13f")
+                path = os.path.join(root, "snap")
+                seed = rng.randrange(1 << 30)
+                how = "fail-empty" if seed % 3 == 0 else "fail"
+                world = cc.run_take(wl, path, "async", sched, seed, write_policy=lambda r, p, n, fr=fr, fn_=fn_, how=how: how if (r == fr and n == fn_) else None)
+                replay = {"public_fault": True, "workload": wl, "sched": sched, "seed": seed, "fail_rank": fr, "fail_nth": fn_, "how": how}
+                ws = cc.writes_of(world)
+                failed = [w for w in ws if w["failed"]]
+                res.case({"scenario": "public-fault", "W": wl["W"], "sched": str(sched), "fail": [fr, fn_], "how": how,
+                          "writes_of_failing_rank": counts[fr]}, nontrivial=counts[fr] >= 2)
+                res.count("scenario", "public-fault"); res.count("public_fault.writes_of_failing_rank", min(counts[fr], 9))
+                if failed:
+                    quiet = [r for r in range(wl["W"]) if world.errors[r] is None]
+                    hung = [r for r in range(wl["W"]) if isinstance(world.errors[r], Deadlock)]
+                    meta = [w for w in ws if w["path"] == cc.META and w["end"] is not None]
+                    if quiet:
+                        res.failures.append(Failure("C13:public:wait-returned-normally-after-a-failed-write",
+                                                    f"write #{fn_} of rank {fr} failed ({how}) but wait() returned normally on ranks {quiet} [W={wl['W']} sched={sched}]", replay))
+                    if hung and not cc.foreground_failure(world, fr):
+                        res.failures.append(Failure("C13:public:hang-after-a-failed-write", f"ranks {hung} blocked for ever after write #{fn_} of rank {fr} failed [W={wl['W']} sched={sched}]", replay))
+                    if meta and failed[0]["path"] != cc.META:
+                        res.failures.append(Failure("C13:public:committed-despite-io-failure", f"metadata written although write #{fn_} of rank {fr} failed [W={wl['W']} sched={sched}]", replay))
+                shutil.rmtree(root, ignore_errors=True)
+
+
 # =========================================================================== entry points
 def correspond(ctx: Ctx) -> Result:
     res = Result(rule=RULE)
@@ -596,12 +645,23 @@ def correspond(ctx: Ctx) -> Result:
     check_histories(c)
     c.flush()
     check_public(ctx, res)
+    check_public_faults(ctx, res)
     res.exhaustive = True   # W <= 2 (and W = 3 in the thorough tier) single snapshots are enumerated completely
     res.notes.append(f"legacy (same barrier id) violations observed, as the _refuted theorems predict: {c.legacy_hits}")
     return res
 
 
 def replay(ctx: Ctx, data):
+    if data.get("public_fault"):
+        from props import commit_common as cc
+        root = ctx.scratch("c13r")
+        sched = data["sched"] if isinstance(data["sched"], str) else tuple(data["sched"])
+        fr, fn_ = data["fail_rank"], data["fail_nth"]
+        world = cc.run_take(data["workload"], os.path.join(root, "snap"), "async", sched, data["seed"],
+                            write_policy=lambda r, p, n: data["how"] if (r == fr and n == fn_) else None)
+        shutil.rmtree(root, ignore_errors=True)
+        quiet = [r for r in range(data["workload"]["W"]) if world.errors[r] is None]
+        return Failure("C13:public:wait-returned-normally-after-a-failed-write", f"wait() returned normally on ranks {quiet}", data) if quiet else None
     if data.get("public"):
         world, r, errs = public_run(ctx, data["W"], data["policy"], 2, data.get("same_path", True), data.get("seed", 0))
         v = public_oracle(data["W"], world, r, errs, 2)
